@@ -44,11 +44,45 @@ def get_stmt_id_generator(statements):
     return UniqueNameGenerator({stmt.id for stmt in statements})
 
 
-def get_var_name_generator(statements):
+def get_node_variables(phase_ast):
+    """Return the names held by the control-flow nodes of *phase_ast*: loop
+    counters and the variables of conditions and loop bounds."""
+    from dagrt.codegen.dag_ast import ForLoop, IfThen, IfThenElse
+    from dagrt.utils import get_variables
+
+    if isinstance(phase_ast, StatementWrapper):
+        return frozenset()
+    elif isinstance(phase_ast, IfThen):
+        result = get_variables(phase_ast.condition)
+        children = (phase_ast.then,)
+    elif isinstance(phase_ast, IfThenElse):
+        result = get_variables(phase_ast.condition)
+        children = (phase_ast.then, phase_ast.else_)
+    elif isinstance(phase_ast, ForLoop):
+        result = (frozenset([phase_ast.loop_var_name])
+                | get_variables(phase_ast.lbound)
+                | get_variables(phase_ast.ubound))
+        children = (phase_ast.body,)
+    elif isinstance(phase_ast, Block):
+        result = frozenset()
+        children = phase_ast.children
+    else:
+        raise ValueError(
+                f"Unknown node type: {phase_ast.__class__.__name__}")
+
+    for child in children:
+        result = result | get_node_variables(child)
+    return result
+
+
+def get_var_name_generator(statements, phase_ast):
     existing_variables = set()
     for stmt in statements:
         existing_variables.update(stmt.get_written_variables())
         existing_variables.update(stmt.get_read_variables())
+    # Loop counters and the variables of conditions and loop bounds live in
+    # the nodes of the tree, not in its statements.
+    existing_variables.update(get_node_variables(phase_ast))
     return UniqueNameGenerator(existing_variables)
 
 
@@ -77,7 +111,7 @@ def apply_statement_rewriter(rewriter_cls, phase_ast):
     statements = list(get_statements_in_ast(phase_ast))
     rewriter = rewriter_cls(
             stmt_id_gen=get_stmt_id_generator(statements),
-            var_name_gen=get_var_name_generator(statements))
+            var_name_gen=get_var_name_generator(statements, phase_ast))
 
     return rewriter(phase_ast)
 
